@@ -3,6 +3,7 @@
  * EXPECT-FAIL: OUT4 cJSON_PrintPreallocated
  * EXPECT-FAIL: OUT2 print_value
  * EXPECT-FAIL: OUT3 print_array
+ * EXPECT-FAIL: OUT8 print_array
  * EXPECT-FAIL: OUT2 print_array
  * EXPECT-FAIL: TAB15 print_array
  * EXPECT-FAIL: TAB5b print_string_ptr
